@@ -70,6 +70,11 @@ func (e *env) writeCases(name string, header string, coqCases []string, inputs [
 
 // writeCasesFn is writeCases with an explicit Coq checking function.
 func (e *env) writeCasesFn(name string, header string, fn string, coqCases []string, inputs []interface{}) {
+	e.writeCases2(name, header, fn, "", coqCases, inputs)
+}
+
+// writeCases2 also evaluates a model-independent property check [fnProp] on the observed artefacts.
+func (e *env) writeCases2(name string, header string, fn string, fnProp string, coqCases []string, inputs []interface{}) {
 	path := filepath.Join(e.out, name+".v")
 	f, err := os.Create(path)
 	check(err)
@@ -77,6 +82,9 @@ func (e *env) writeCasesFn(name string, header string, fn string, coqCases []str
 	fmt.Fprint(f, header)
 	fmt.Fprintf(f, "\nDefinition cases := %s.\n", coqListNL(coqCases))
 	fmt.Fprintf(f, "\nDefinition bad := Eval vm_compute in %s cases.\nLocal Open Scope N_scope.\nPrint bad.\n", fn)
+	if fnProp != "" {
+		fmt.Fprintf(f, "\nDefinition bad_prop := Eval vm_compute in %s cases.\nPrint bad_prop.\n", fnProp)
+	}
 	check(f.Close())
 	side, err := json.Marshal(inputs)
 	check(err)
